@@ -131,7 +131,7 @@ def parser_kwargs(scheme, n, pass_nvars, locs=None, tol=None, rel=None):
 
 def tolerances():
     """(tol, rel) for ``locals``; None = leave the default (1e-15)"""
-    return st.sampled_from([(None, None)] * 6 + [(1e-15, 1e-15), (1e-9, None), (None, 1e-9), (1e-3, 1e-6),
+    return st.sampled_from([(None, None)] * 9 + [(1e-15, 1e-15), (1e-9, None), (None, 1e-9), (1e-3, 1e-6),
                                                  (0.5, None), (0.0, 1e-12), (1e-6, 0.0), (0.0, 0.0), (1e-20, 0.0)])
 
 
@@ -344,6 +344,8 @@ def ev(t, x, locs=None):
     if k == 'mul':
         return a * b
     if k == 'div':
+        if b == 0:                      # also for numpy scalars (which would give inf and a warning)
+            raise ZeroDivisionError('division by zero')
         return a / b
     if k == 'min':
         return b if b < a else a
@@ -439,6 +441,61 @@ def to_container(x, kind):
     if kind == 'intlist':
         return [int(v) if (isinstance(v, float) and v == int(v) and abs(v) <= 1000) else v for v in x]
     return list(x)
+
+
+# ------------------------------------------------------------------------------ isolated-form systems
+@st.composite
+def isolated_systems(draw, min_lines=2):
+    """2-4 relations 'x_i <cmp> f' whose left-hand variables occur in no right-hand side; optionally one of
+    the same-variable companions the parser supports: 'x_i != g' next to an inequality on x_i (g the same tree
+    or another one), or the closed band f <= x_i <= f + c"""
+    n = draw(st.one_of(st.integers(2, 6), st.sampled_from([11, 12])))
+    m = draw(st.integers(min(min_lines, 2), min(4, n)))
+    lhs = draw(st.lists(st.integers(0, n - 1), min_size=m, max_size=m, unique=True))
+    if n > 10 and draw(st.booleans()):
+        lhs = draw(st.permutations(([1, 10, 11, 0] if n > 11 else [1, 10, 0, 2])[:m]))
+    free = [j for j in range(n) if j not in lhs]
+    locs = draw(locals_dicts())
+    exact = draw(st.integers(0, 4)) > 0
+    rels = []
+    for i in lhs:
+        rels.append({'i': i, 'cmp': draw(st.sampled_from(CMPS)),
+                     'rhs': draw(trees(free, sorted(locs), depth=1, exact=exact))})
+    extra = draw(st.sampled_from(['', '', 'neq-same', 'neq-other', 'band']))
+    if extra:
+        r0 = rels[0]
+        if extra == 'band':
+            r0['cmp'] = '>='
+            comp = {'i': r0['i'], 'cmp': '<=',
+                    'rhs': ['add', r0['rhs'], ['c', draw(st.sampled_from([0.0, 0.5, 2.5, 100.0]))]]}
+        else:
+            r0['cmp'] = draw(st.sampled_from(['<=', '>=', '<', '>']))
+            comp = {'i': r0['i'], 'cmp': '!=',
+                    'rhs': r0['rhs'] if extra == 'neq-same' else draw(trees(free, sorted(locs), depth=1, exact=exact))}
+        rels.insert(draw(st.integers(0, len(rels))), comp)
+    tol, rel = draw(tolerances())
+    return {'seed': draw(st.integers(0, 2 ** 20)), 'n': n, 'scheme': draw(schemes(n)),
+            'pass_nvars': draw(st.booleans()), 'rels': rels, 'extra': extra, 'locals': locs, 'tol': tol, 'rel': rel,
+            'tight': draw(st.booleans()), 'blank': draw(st.booleans())}
+
+
+def system_text(case):
+    names = names_of(case['scheme'], case['n'])
+    lines = [render_line(['v', r['i']], r['cmp'], r['rhs'], names, case['tight'], '  ' if case['blank'] else '')
+             for r in case['rels']]
+    text = ('\n\n' if case['blank'] else '\n').join(lines)
+    return ('\n' + text + '\n') if case['blank'] else text
+
+
+def neq_tie(rels, fs, fzs, tol, rel):
+    """'xi != g' next to a strict 'xi > f': the clip target f +- tolerance(f) can coincide with g only when g
+    lies inside the band of f without being f; such constructed ties are outside the claim"""
+    for kn, q in enumerate(rels):
+        for kc, r in enumerate(rels):
+            if q['cmp'] == '!=' and r['i'] == q['i'] and r['cmp'] in STRICT and \
+               0 < abs(Fraction(fs[kn]) - Fraction(fs[kc])) <= 2 * band_guard(fs[kc], tol, rel) + Fraction(fzs[kc]):
+                return True
+    return False
 
 
 def selftest(n=2000, seed=0):
